@@ -117,6 +117,17 @@ def _lib_comps(comps):
     return [Component.from_bytes(v, t) for t, v in comps]
 
 
+def _raw_unicode(typ, val):
+    """URI text of a component whose value is UTF-8 text, with the non-ASCII characters written as they are (not escaped)"""
+    try:
+        text = val.decode('utf-8')
+    except UnicodeDecodeError:
+        return ref_comp_canonical(typ, val)
+    if not any(ord(c) >= 0x80 for c in text) or not all(ord(c) >= 0x80 or c.encode()[0] in UNRESERVED for c in text):
+        return ref_comp_canonical(typ, val)
+    return text if typ == 8 else f'{typ}={text}'
+
+
 def _recase(uri, mode):
     """The same URI with its percent escapes spelled in lower case (mode 0) or with one lower- and one upper-case digit"""
     out = []
@@ -230,6 +241,8 @@ def _check_single(r, comps, rep):
         'generator': lambda: (e for e in enc),
         'uri-canonical': lambda: cu_ref,
         'uri-no-leading-slash': lambda: cu_ref[1:] if comps and not cu_ref[1:].startswith('/') and not cu_ref.endswith('/') else cu_ref,
+        'uri-raw-unicode': lambda: '/' + '/'.join(_raw_unicode(t, v) for t, v in comps) if comps and comps[-1] != (8, b'') else cu_ref,
+        'list-str-raw-unicode': lambda: [_raw_unicode(t, v) for t, v in comps],
         'uri-lower-case-escapes': lambda: _recase(cu_ref, 0),
         'uri-mixed-case-escapes': lambda: _recase(cu_ref, 1 + rep % 2),
         'list-str': lambda: [ref_comp_canonical(t, v) for t, v in comps],
@@ -311,13 +324,18 @@ def _pair(draw):
         # magnitudes between the usual boundaries: one component of 1.7k..8k octets (any type, typed numbers included), or a
         # name of 17..100 one-octet components
         if draw(st.booleans()):
-            n = draw(st.sampled_from([1700, 1786, 1787, 2000, 3000, 8000]))
+            n = draw(st.sampled_from([1700, 1786, 1787, 2000, 3000, 8000] * 4 + [65535, 65536, 70000]))
             fill = draw(st.integers(0, 255))
             a.insert(draw(st.integers(0, len(a))), [draw(st.sampled_from([8, 50, 54, 58, 32, 52])),
                                                     (bytes([fill, (fill + 1) % 256]) * (n // 2 + 1))[:n].hex()])
             a = a[:4]
         else:
             a = [[8, bytes([97 + i % 26]).hex()] for i in range(draw(st.sampled_from([17, 33, 40, 100])))]
+    if draw(st.integers(0, 5)) == 0:
+        # values that are UTF-8 text with characters beyond ASCII (U+0080..U+00FF, U+0100.., astral)
+        txt = draw(st.sampled_from(['\u00f6', '\u00e9\u00bf', '\u0080', '\u00ff', 'a\u00f6b', '\u0100', '\u65e5\u672c', '\U0001f600', 'x\u00a0']))
+        a.insert(draw(st.integers(0, len(a))), [draw(st.sampled_from([8, 8, 32])), txt.encode('utf-8').hex()])
+        a = a[:8]
     mode = draw(st.integers(0, 5))
     b = None
     if mode == 0:
@@ -363,5 +381,5 @@ SUBCHECKS = {
     'grid': SubCheck(run_case, enumerate=_grid, exhaustive={'quick': True, 'thorough': True},
                      note='all 256 byte values x 3 positions x 4 component types, paired with the next byte value'),
     'names': SubCheck(run_case, strategy=lambda tier: _pair(),
-                      examples={'quick': 24000, 'thorough': 1200000}),
+                      examples={'quick': 14000, 'thorough': 1200000}),
 }
